@@ -85,7 +85,7 @@ def build_rx():
     e = os.path.join(VERIF, 'engines'); r = os.path.join(VERIF, 'ref')
     return build_single('rx', os.path.join(e, 'rx_main.cpp'), [os.path.join(e, 'jsonw.hpp'), os.path.join(r, 'regex.hpp'), os.path.join(r, 'lr1.hpp')], RX_FLAGS)
 
-SCALE_FLAGS = ['-std=c++17', '-O1', '-DCTPG_VERIF', '-fno-access-control', '-I' + os.path.join(REPO, 'include'), '-I' + os.path.join(VERIF, 'engines')]
+SCALE_FLAGS = ['-std=c++17', '-O1', '-ftemplate-depth=8192', '-DCTPG_VERIF', '-fno-access-control', '-I' + os.path.join(REPO, 'include'), '-I' + os.path.join(VERIF, 'engines')]
 
 def build_scale(tier):
     """E-SCALE: one executable per family instance (gen/scale_gen.py), built in parallel and cached by content. Returns {family: exe}
